@@ -233,7 +233,7 @@ def shard_run_env(b, cases, d, tag, env, nshards=None):
     old = dict(vlib.GOENV)
     vlib.GOENV.update(env)
     try:
-        return fl.shard_run(b, "pipe-run", cases, d, tag, extra=("--watchdog", "90s"), nshards=nshards, timeout=3000)
+        return fl.shard_run(b, "pipe-run", cases, d, tag, extra=("--watchdog", "30s"), nshards=nshards, timeout=3000)
     finally:
         vlib.GOENV.clear()
         vlib.GOENV.update(old)
